@@ -292,7 +292,14 @@ def rule_rfc6979_steps(ctx: Ctx, rep: Report) -> None:
     rep.floor(rule, 16)
 
 
+def rule_no_stale_cache_(ctx: Ctx, rep: Report) -> None:
+    """C02.no_stale_cache: a memo is keyed by hashable, converted values and never hands out a mutable answer (see sigcommon.rule_no_stale_cache): verification answers for every declared spelling of the key."""
+    from rules.sigcommon import rule_no_stale_cache
+    rule_no_stale_cache(ctx, rep, "C02.no_stale_cache", ("btclib.ecc.dsa", "btclib.ecc.bms", "btclib.ecc.rfc6979", "btclib.to_pub_key", "btclib.to_prv_key", "btclib.curves"), 1)
+
+
 RULES = [
+    ("C02.no_stale_cache", rule_no_stale_cache_),
     ("C02.rfc6979_steps", rule_rfc6979_steps),
     ("C02.one_comparator", rule_one_comparator),
     ("C02.raw_argument", rule_raw_argument_),
